@@ -56,6 +56,7 @@ CODEMODS = {
     "fix-float-equality": (["v = 1.0"], ["z{n} = v == {n}.5"]),
     "timezone-aware-datetime": (["import datetime"], ["d{n} = datetime.datetime.utcnow() or {n}"]),
     "use-defusedxml": (["from xml.etree.ElementTree import parse"], ["x{n} = parse('f{n}.xml')"]),
+    "harden-pickle-load": (["import pickle"], ["p{n} = pickle.load(s{n})"]),
     # DESIGN §5 C13: find-and-fix transformers that never call the line filter (known findings, one class per codemod)
     "remove-future-imports": ([], ["from __future__ import print_function  # {n}"]),
     "break-or-continue-out-of-loop": ([], ["break  # {n}"]),
@@ -64,8 +65,92 @@ CODEMODS = {
     "use-walrus-if": ([], ["w{n} = print({n})", "if w{n}: print(w{n})"]),
     "django-model-without-dunder-str": (["from django.db import models"], ["class M{n}(models.Model):", "    x = {n}"]),
 }
+# the candidate construct as an expression (so that it can sit in other syntactic contexts than a flat assignment)
+EXPR = {
+    "use-set-literal": "set([{n}, 0])",
+    "use-generator": "any([i for i in range({n})])",
+    "literal-or-new-object-identity": "(v is [{n}])",
+    "numpy-nan-equality": "(v == np.nan or {n})",
+    "remove-unnecessary-f-str": "f'u{n}'",
+    "secure-tempfile": "tempfile.mktemp('{n}')",
+    "https-connection": "urllib3.HTTPConnectionPool('h{n}')",
+    "str-concat-in-sequence-literals": "['a{n}' 'b', 'c']",
+    "fix-empty-sequence-comparison": "({n} if v != [] else 0)",
+    "invert-boolean-check": "(not v == {n})",
+    "combine-startswith-endswith": "(v.startswith('a{n}') or v.startswith('b'))",
+    "fix-math-isclose": "(math.isclose(v, 0) or {n})",
+    "fix-float-equality": "(v == {n}.5)",
+    "timezone-aware-datetime": "(datetime.datetime.utcnow() or {n})",
+    "use-defusedxml": "parse('f{n}.xml')",
+    "harden-pickle-load": "pickle.load(s{n})",
+}
+# site shapes: where a single-line candidate sits.  Every site is still one physical line; what varies is what encloses it.
+EXPR_SHAPES = ["flat",      # v = E
+               "wrapped",   # E alone on a line, as an argument of a call spanning three lines
+               "kwarg",     # E as a keyword argument on its own line of a call spanning four lines
+               "pair",      # two sites on consecutive lines of one statement (a list display spanning four lines)
+               "with",      # with ctx(E) as c:
+               "deco",      # @deco(E)
+               "lambda"]    # lam = lambda: E
+STMT_SHAPES = ["flat", "ifblock"]    # a statement-level candidate: at top level, or indented in an `if` body
+
+
+def shapes_for(k):
+    if k in EXPR:
+        return EXPR_SHAPES
+    return STMT_SHAPES if len(CODEMODS[k][1]) == 1 else ["flat"]
+
+
+def build_shaped(rng, k, nsites, shapes, one_of_each=False):
+    """Lines of a file whose candidate sites sit in the given shapes; returns (lines, sites, shape_of_site)."""
+    hdr, tpl = CODEMODS[k]
+    span = len(tpl)
+    lines, sites, shape_of = list(hdr), [], {}
+    E = lambda n: EXPR[k].format(n=n)
+    S = lambda n: tpl[0].format(n=n)
+
+    def pad():
+        n = len(lines) + 1
+        lines.append(f"pad{n} = {n}")
+    todo = list(shapes) if one_of_each else None
+    while (todo if one_of_each else len(sites) < nsites):
+        for _ in range(rng.randint(1, 2)):
+            pad()
+        sh = todo.pop(0) if one_of_each else rng.choice(shapes)
+        if sh == "pair" and not one_of_each and len(sites) + 2 > nsites:
+            sh = "wrapped"
+        n = len(lines) + 1
+        new = []
+        if span > 1:
+            lines.extend(t.format(n=n) for t in tpl); new = [n]
+        elif sh == "flat":
+            lines.append(f"v{n} = {E(n)}" if k in EXPR else S(n)); new = [n]
+        elif sh == "ifblock":
+            lines.extend([f"if pad{n}:", "    " + S(n + 1)]); new = [n + 1]
+        elif sh == "wrapped":
+            lines.extend([f"r{n} = wrap(", f"    {E(n + 1)},", ")"]); new = [n + 1]
+        elif sh == "kwarg":
+            lines.extend([f"r{n} = wrap(", f"    first={n},", f"    key={E(n + 2)},", ")"]); new = [n + 2]
+        elif sh == "pair":
+            lines.extend([f"t{n} = [", f"    {E(n + 1)},", f"    {E(n + 2)},", "]"]); new = [n + 1, n + 2]
+        elif sh == "with":
+            lines.extend([f"with ctx({E(n)}) as c{n}:", "    pass"]); new = [n]
+        elif sh == "deco":
+            lines.extend([f"@deco({E(n)})", f"def f{n}():", "    pass"]); new = [n]
+        elif sh == "lambda":
+            lines.append(f"lam{n} = lambda: {E(n)}"); new = [n]
+        else:
+            raise ValueError(sh)
+        for x in new:
+            sites.append(x)
+            shape_of[x] = sh
+    pad()
+    return lines, sites, shape_of
+
+
 QUICK_CODEMODS = ["use-set-literal", "use-generator", "remove-debug-breakpoint", "unused-imports", "numpy-nan-equality",
                   "secure-tempfile", "invert-boolean-check", "remove-module-global",
+                  "harden-pickle-load", "use-defusedxml", "https-connection",      # ImportedCallModifier family
                   "remove-future-imports", "break-or-continue-out-of-loop", "secure-flask-session-configuration", "use-walrus-if"]
 RELS = ["a.py", "sub/b.py", "pkg/mod/c.py"]
 
@@ -259,21 +344,26 @@ def run_pure(ctx):
 # ------------------------------------------------------------------------------------------------
 # end to end: per-codemod conformance
 # ------------------------------------------------------------------------------------------------
-def make_job(rng, k, sites=None, total=None, E=None, I=None, how=None, rel=None, second=None, relative_target=False, include_plain=None):
+def make_job(rng, k, sites=None, total=None, E=None, I=None, how=None, rel=None, second=None, relative_target=False, include_plain=None,
+             lines=None, shapes=None):
     hdr, tpl = CODEMODS[k]
     span = len(tpl)
-    if sites is None:
-        sites, total = gen_sites(rng, k, rng.randint(1, 4))
+    shape_of = {}
+    if lines is None:
+        if sites is None:
+            lines, sites, shape_of = build_shaped(rng, k, rng.randint(1, 4), shapes or shapes_for(k))
+        else:
+            lines = build_file(k, sites, total)
     rel = rel or rng.choice(RELS)
-    mode = None
     if E is None and I is None:
-        mode = rng.choice(["E", "I", "E", "I", "both", "none"])
+        mode = rng.choice(["E", "I", "E", "I", "I", "both", "none"])
         pick = lambda: sorted(rng.sample(sites, rng.randint(0 if len(sites) > 1 else 1, len(sites))))
         E = pick() if mode in ("E", "both") else []
         I = pick() if mode in ("I", "both") else []
     how = how or rng.choice(["relative", "globbed", "absolute", "mixed"])
-    return {"codemod": k, "rel": rel, "sites": sites, "total": total, "span": span, "E": E, "I": I, "how": how,
-            "second": rng.random() < 0.3 if second is None else second, "relative_target": relative_target,
+    return {"codemod": k, "rel": rel, "sites": sites, "lines": lines, "span": span, "E": E, "I": I, "how": how,
+            "shapes": sorted(set(shape_of.values())) or ["flat"], "shape_of": shape_of,
+            "second": rng.random() < 0.25 if second is None else second, "relative_target": relative_target,
             "include_plain": rng.random() < 0.8 if include_plain is None else include_plain, "seed": rng.getrandbits(32)}
 
 
@@ -283,11 +373,11 @@ def run_job(job):
     d = Path(job["case_dir"])
     proj = d / "proj"
     k, rel = job["codemod"], job["rel"]
-    files = {rel: build_file(k, job["sites"], job["total"])}
+    files = {rel: job["lines"]}
     sites_of = {rel: job["sites"]}
     if job["second"]:
         other = "z.py" if rel != "z.py" else "y.py"
-        s2, t2 = job["sites"][:2], job["total"]
+        s2, t2 = gen_sites(rng, k, 2)
         files[other] = build_file(k, s2, t2)
         sites_of[other] = s2
     core.write_tree(proj, {r: "\n".join(ls) + "\n" for r, ls in files.items()})
@@ -333,24 +423,60 @@ def run_job(job):
     return out
 
 
+def run_jobs(ctx, jobs, tag):
+    for i, j in enumerate(jobs):
+        d = ctx.scratch / f"c13_{tag}{i}"
+        d.mkdir(parents=True, exist_ok=True)
+        j["case_dir"] = str(d)
+    with concurrent.futures.ThreadPoolExecutor(max_workers=min(12, core.NCPU)) as ex:
+        return list(ex.map(run_job, jobs))
+
+
+def corpus_job(rng, c):
+    j = make_job(rng, c["codemod"], sites=c["sites"], total=c.get("total"), lines=c.get("lines"), E=[], I=[], how="relative",
+                 rel=c["rel"], second=False)
+    j["exc"], j["inc"] = c["exclude"], c["include"]
+    j["corpus"] = c.get("name", "corpus")
+    return j
+
+
 def e2e(ctx):
     rng = ctx.rng
     quick = ctx.quick()
+    codemods = QUICK_CODEMODS if quick else list(CODEMODS)
+    # phase 1 - control runs, no pattern: one file per codemod with one site of every shape.  A shape in which the codemod's
+    # trigger does not fire at all (nothing to do with line filtering) is not used for that codemod afterwards.
+    controls = []
+    for k in codemods:
+        lines, sites, shape_of = build_shaped(rng, k, 0, shapes_for(k), one_of_each=True)
+        j = make_job(rng, k, sites=sites, lines=lines, E=[], I=[], second=False)
+        j["shape_of"], j["shapes"], j["control"] = shape_of, sorted(set(shape_of.values())), True
+        controls.append(j)
+    control_obs = run_jobs(ctx, controls, "ctl")
+    firing = {}
+    for j, o in zip(controls, control_obs):
+        k = j["codemod"]
+        f = o["files"].get(j["rel"], {"rewritten": []}) if o["rc"] == 0 else {"rewritten": []}
+        dead = {j["shape_of"][s] for s in j["sites"] if s not in f["rewritten"]}
+        firing[k] = [sh for sh in shapes_for(k) if sh not in dead]
+        for sh in sorted(dead):
+            ctx.count(f"e2e_shape_not_firing:{k}:{sh}")
+        if "flat" in dead or o["rc"] != 0:
+            ctx.notes.append(f"control run of {k}: the flat trigger template no longer fires (rc={o['rc']}); codemod not searched")
+            firing[k] = []
+    # phase 2 - the search
     jobs = []
     corpus = json.loads((CORPUS / "e2e.json").read_text()) if (CORPUS / "e2e.json").exists() else []
     for c in corpus:
-        j = make_job(rng, c["codemod"], sites=c["sites"], total=c["total"], E=[], I=[], how="relative", rel=c["rel"], second=False)
-        j["exc"], j["inc"] = c["exclude"], c["include"]
-        j["corpus"] = c.get("name", "corpus")
-        jobs.append(j)
-    codemods = QUICK_CODEMODS if quick else list(CODEMODS)
+        jobs.append(corpus_job(rng, c))
     per = 7 if quick else 14
     if getattr(ctx, "deep", False):
         per *= 2
     for k in codemods:
-        jobs.append(make_job(rng, k, E=[], I=[], second=False))           # control: no pattern, every site must be rewritten
+        if not firing[k]:
+            continue
         for i in range(per):
-            jobs.append(make_job(rng, k, relative_target=(i % 5 == 4)))
+            jobs.append(make_job(rng, k, relative_target=(i % 5 == 4), shapes=firing[k]))
     if not quick:
         # exhaustive small scope: all subsets E and all subsets I of n = 3 sites x the three spellings, for four codemods
         for k in ["use-set-literal", "unused-imports", "remove-debug-breakpoint", "use-generator"]:
@@ -361,12 +487,19 @@ def e2e(ctx):
                     jobs.append(make_job(rng, k, sites=sites, total=total, E=S, I=[], how=how, second=False))
                     if S:
                         jobs.append(make_job(rng, k, sites=sites, total=total, E=[], I=S, how=how, second=False, include_plain=True))
-    for i, j in enumerate(jobs):
-        d = ctx.scratch / f"c13_{i}"
-        d.mkdir(parents=True, exist_ok=True)
-        j["case_dir"] = str(d)
-    with concurrent.futures.ThreadPoolExecutor(max_workers=min(12, core.NCPU)) as ex:
-        observations = list(ex.map(run_job, jobs))
+        # and all subsets I / E of the sites of one file holding every firing shape, for the call-rewriting families
+        for k in ["harden-pickle-load", "use-defusedxml", "https-connection", "use-set-literal", "secure-tempfile"]:
+            if not firing.get(k):
+                continue
+            lines, sites, shape_of = build_shaped(rng, k, 0, [sh for sh in firing[k] if sh != "pair"][:4], one_of_each=True)
+            for S in [list(c) for r in range(1, len(sites) + 1) for c in itertools.combinations(sites, r)]:
+                for E_, I_ in ((S, []), ([], S)):
+                    j = make_job(rng, k, sites=sites, lines=lines, E=E_, I=I_, how="relative", second=False)
+                    j["shape_of"], j["shapes"] = shape_of, sorted(set(shape_of.values()))
+                    jobs.append(j)
+    observations = run_jobs(ctx, jobs, "")
+    jobs = controls + jobs
+    observations = control_obs + observations
 
     cases, meta = [], []
     for j, o in zip(jobs, observations):
@@ -375,9 +508,12 @@ def e2e(ctx):
         ctx.count(f"e2e_codemod:{k}")
         ctx.count(f"e2e_spelling:{j['how']}")
         ctx.count("e2e_mode:" + ("none" if not (o["exc"] or o["inc"]) else "+".join(x for x, y in (("E", o["exc"]), ("I", o["inc"])) if y)))
-        ctx.count(f"e2e_sites:{len(j['sites'])}")
+        ctx.count(f"e2e_sites:{min(len(j['sites']), 5)}")
+        for sh in j.get("shapes", ["flat"]):
+            ctx.count(f"e2e_shape:{sh}")
         anon = lambda ps: [p.replace(j["case_dir"], "<case>") for p in ps]
-        base = {"kind": "e2e", "codemod": k, "rel": j["rel"], "sites": j["sites"], "total": j["total"], "exclude": anon(o["exc"]),
+        base = {"kind": "e2e", "codemod": k, "rel": j["rel"], "sites": j["sites"], "lines": j["lines"], "shapes": j.get("shapes"),
+                "exclude": anon(o["exc"]),
                 "include": anon(o["inc"]), "argv": o["argv"], "relative_target": j["relative_target"]}
         if o["rc"] != 0:
             ctx.violation(f"kf_c13_cli_failed:{k}", f"CLI exited {o['rc']}: {o['stderr'][-300:]}", base)
@@ -386,11 +522,22 @@ def e2e(ctx):
             replay = dict(base, file=r_, observed_rewritten=f["rewritten"], observed_change_lines=f["change_lines"],
                           before=f["before"], after=f["after"], file_sites=f["sites"])
             if not (o["exc"] or o["inc"]) and f["rewritten"] != f["sites"]:
-                ctx.notes.append(f"control run of {k}: sites {f['sites']} but rewritten {f['rewritten']} (trigger template no longer fires)")
-                ctx.count(f"e2e_control_failed:{k}")
+                ctx.count(f"e2e_unfiltered_run_left_sites:{k}")
             if j["span"] == 1 and f["change_lines"] is not None and f["change_lines"] != f["rewritten"]:
-                ctx.violation(f"kf_c13_change_line:{k}", f"{k}: sites on lines {f['rewritten']} were rewritten but the report's changes[].lineNumber "
-                              f"are {f['change_lines']}", replay)
+                ghost = sorted(set(f["change_lines"]) - set(f["rewritten"]))
+                silent = sorted(set(f["rewritten"]) - set(f["change_lines"]))
+                dup = sorted({x for x in f["change_lines"] if f["change_lines"].count(x) > 1})
+                if ghost:
+                    ctx.violation(f"kf_c13_change_for_unrewritten_line:{k}", f"{k} on {r_}: change entries name lines {ghost} but the constructs on "
+                                  f"those lines were not rewritten (rewritten: {f['rewritten']}; changes[].lineNumber: {f['change_lines']}; "
+                                  f"--path-exclude {o['exc']} --path-include {o['inc']})", replay)
+                if silent:
+                    ctx.violation(f"kf_c13_rewrite_without_change:{k}", f"{k} on {r_}: the sites on lines {silent} were rewritten but no change entry "
+                                  f"names them (changes[].lineNumber: {f['change_lines']})", replay)
+                if dup and not ghost and not silent:
+                    ctx.violation(f"kf_c13_duplicate_change:{k}", f"{k} on {r_}: change entries repeat lines {dup}", replay)
+            if j.get("control"):
+                continue        # phase-1 run: it only establishes which shapes fire (and the change-line clause above)
             cases.append(cpair(cstr(o["as_passed"][r_]), cstr(r_), c_strs(o["exc"]), c_strs(o["inc"]), c_zs(f["sites"]), cN(j["span"]),
                                c_zs(f["rewritten"])))
             meta.append((j, o, r_, f, replay))
@@ -408,6 +555,9 @@ def e2e(ctx):
         if form == "AsPassedAbsolute" and i not in aspassed_bad:
             cls = "kf_c13_relative_line_pattern_ignored"
             why = "explained by matching the `path:line` patterns against the path as passed only"
+        elif not (o["exc"] or o["inc"]):
+            cls = f"kf_c13_site_not_rewritten_without_patterns:{k}"
+            why = "no line pattern was given, and the same construct is rewritten when it is not nested"
         elif f["rewritten"] == f["sites"]:
             cls = f"kf_no_line_filter:{k}"
             why = "every site was rewritten: the transformer does not consult the line filter"
@@ -441,8 +591,10 @@ def replay(ctx, body):
         print("file_line_patterns now:", impl_file_line_patterns(body["path"], body["patterns"]), "| recorded:", body["observed"])
     elif kind == "e2e":
         import random
-        j = make_job(random.Random(0), body["codemod"], sites=body["sites"], total=body["total"], E=[], I=[], how="relative", rel=body["rel"],
-                     second=body.get("file") not in (None, body["rel"]), relative_target=body.get("relative_target", False))
+        main = body.get("file") in (None, body["rel"])
+        j = make_job(random.Random(0), body["codemod"], sites=body["sites"] if main else body["file_sites"],
+                     lines=body["lines"] if main else body["before"], E=[], I=[], how="relative",
+                     rel=body["rel"] if main else body["file"], second=False, relative_target=body.get("relative_target", False))
         d = ctx.scratch / "replay"
         d.mkdir(parents=True, exist_ok=True)
         j["case_dir"] = str(d)
